@@ -510,8 +510,15 @@ def is_inplace(step):
 INPLACE_OPS = {
     "iadd", "isub", "imul", "idiv", "ipow", "imul_s", "idiv_s", "iadd_s",
     "isub_s", "ipow_s", "fill_missing_blocks", "drop_missing_blocks",
-    "set_params", "apply_to_arrays", "factors",
+    "set_params", "apply_to_arrays", "factors", "align_inplace",
 }
+
+
+def inplace_targets(step):
+    """Names of the values an in-place step is asked to change."""
+    if step["op"] == "align_inplace":
+        return list(step["in"][:2])
+    return list(step["in"][:1])
 
 # in-place step -> its out-of-place twin (same args)
 TWIN = {
